@@ -151,7 +151,8 @@ fn cov_cases(rng: &mut Rng, cases: &mut u64) -> Option<Vec<(String, String)>> {
         let out = sc.path("outd"); let lib = sc.path("libd");
         let in1 = sc.path("a.fa"); let in2 = sc.path("b.fa");
         let r1: Vec<Vec<u8>> = (0..4).map(|_| b"ACGTACGTACGTACGTACGTACGTACGT".to_vec()).collect();
-        let r2 = test_recs(rng, 5);
+        // the second input is repetitive: its k-mers have multiplicities above the bin size, so a stale table shows
+        let r2: Vec<Vec<u8>> = (0..8).map(|_| b"TTGACCATGGCATTAGACCAGGATTACAGGACCATTAGGC".to_vec()).collect();
         write_fasta(&in1, &r1); write_fasta(&in2, &r2);
         let a1 = sv(&["cov", "-i", &in1, "-o", &out, "-k", "7", "-s", "5", "-c", "6", "--counts"]);
         let a2 = sv(&["cov", "-i", &in2, "-o", &out, "-k", "9", "-s", "5", "-c", "6", "--counts"]);
